@@ -25,7 +25,7 @@ def run(case):
     alloc.update(case['reserved'], case['rank'], case['adj'], case['max_util'])
     apps = []
     for i, (prio, demand, placed) in enumerate(case['apps']):
-        a = S.Application('p.a#%d' % i, prio, demand, 'p.a')
+        a = S.Application('p.a#%d' % ((i * 7 + 3) % 11), prio, demand, 'p.a')   # name order != arrival order
         a.global_order = i
         if placed:
             a.server = 's'
@@ -64,6 +64,103 @@ def run(case):
     return errs
 
 
+def build_tree(node, path, allocs):
+    alloc = S.Allocation(node['reserved'], rank=node['rank'])
+    alloc.update(node['reserved'], node['rank'], node['adj'], node['max_util'])
+    mine = []
+    for (name, prio, demand, placed, order) in node['apps']:
+        a = S.Application(name, prio, demand, 'p.a')
+        a.global_order = order
+        if placed:
+            a.server = 's'
+        alloc.add(a)
+        mine.append(a)
+    allocs.append((path, node, alloc, mine))
+    for i, sub in enumerate(node['subs']):
+        alloc.add_sub_alloc('s%d' % i, build_tree(sub, path + (i,), allocs))
+    return alloc
+
+
+def run_tree(case):
+    """Clauses of the statement on the merged queue of a whole allocation tree (bounded stand-in for
+    Allocation.utilization_queue, which is not under contract)."""
+    allocs = []
+    root = build_tree(case['tree'], (), allocs)
+    q = list(root.utilization_queue(np.array(case['free'], dtype=float)))
+    errs = []
+    every = sorted(a.name for _, _, _, mine in allocs for a in mine)
+    if sorted(e[-1].name for e in q) != every:
+        errs.append('merged queue does not list every instance of the tree exactly once: %r' % [e[-1].name for e in q])
+        return errs
+    ranks = [e[0] for e in q]
+    if ranks != sorted(ranks):
+        errs.append('ranks are not non-decreasing along the queue: %r' % ranks)
+    pos = {e[-1].name: i for i, e in enumerate(q)}
+    for i, e in enumerate(q):
+        if e[-1].priority == 0 and any(f[0] == e[0] and f[-1].priority != 0 for f in q[i + 1:]):
+            errs.append('%s (priority 0) comes before another instance of rank %s' % (e[-1].name, e[0]))
+    for path, node, alloc, mine in allocs:
+        order = sorted(mine, key=lambda a: pos[a.name])
+        keys = [(-a.priority, 0 if a.server else 1, a.global_order) for a in order]
+        if keys != sorted(keys):
+            errs.append('allocation %r: not in priority / running-first / arrival order: %r' % (path, [a.name for a in order]))
+        acc = np.zeros(3)
+        res = np.array(node['reserved'], dtype=float)
+        cap = float('inf') if node['max_util'] is None else node['max_util']
+        for a in sorted(mine, key=lambda a: (-a.priority, 0 if a.server else 1, a.global_order)):
+            before = acc.copy()
+            acc = acc + a.demand
+            rank = q[pos[a.name]][0]
+            if a.priority == 0:
+                continue
+            util_after = np.max((acc - res) / (res + np.finfo(float).eps))
+            if util_after > cap - 1:
+                if rank != S._UNPLACED_RANK:
+                    errs.append('%s: beyond the cap but rank %s' % (a.name, rank))
+                continue
+            if rank == S._UNPLACED_RANK:
+                errs.append('%s: within the cap but unplaced' % a.name)
+            if (acc <= res).all() and (a.demand > 0).all() and rank != node['rank'] - node['adj']:
+                errs.append('%s: cumulative demand %s within reservation %s but rank %s' % (a.name, acc, res, rank))
+            if not (before < res).all() and rank == node['rank'] - node['adj'] and node['adj'] != 0:
+                errs.append('%s: boosted although the reservation was already used up' % a.name)
+    return errs
+
+
+def rand_tree(rng, depth, counter):
+    node = {'reserved': [rng.choice([0, 2, 4]) for _ in range(3)], 'rank': rng.choice([50, 100, 100, 200]),
+            'adj': rng.choice([0, 10, 60]), 'max_util': rng.choice([None, None, 0.5, 1.0, 1.5, 3.0]), 'apps': [], 'subs': []}
+    for _ in range(rng.randint(0, 4)):
+        counter[0] += 1
+        node['apps'].append(('p.%s#%d' % (rng.choice('abc'), rng.randint(0, 10 ** 6)), rng.choice([0, 1, 1, 10, 50]),
+                             [rng.choice([0, 1, 2]) for _ in range(3)], rng.random() < 0.4, counter[0]))
+    if depth > 0:
+        for _ in range(rng.randint(0, 3)):
+            node['subs'].append(rand_tree(rng, depth - 1, counter))
+    return node
+
+
+def rand_tree_case(rng):
+    tree = rand_tree(rng, rng.randint(0, 3), [0])
+    # arrival order is independent of the position in the tree
+    apps = []
+    def collect(n):
+        apps.extend((n, i) for i in range(len(n['apps'])))
+        for s_ in n['subs']:
+            collect(s_)
+    collect(tree)
+    orders = list(range(len(apps)))
+    rng.shuffle(orders)
+    names = set()
+    for (n, i), o in zip(apps, orders):
+        nm, pr, dm, pl, _ = n['apps'][i]
+        while nm in names:
+            nm += 'x'
+        names.add(nm)
+        n['apps'][i] = (nm, pr, dm, pl, o)
+    return {'tree': tree, 'free': [rng.choice([0, 1, 5]) for _ in range(3)]}
+
+
 def rand_case(rng):
     return {'reserved': [rng.choice([0, 2, 4]) for _ in range(3)], 'rank': 100, 'adj': rng.choice([0, 10]),
             'max_util': rng.choice([None, 0.5, 1.0, 1.5, 3.0]),
@@ -72,9 +169,21 @@ def rand_case(rng):
 
 
 def main(argv):
+    if argv[0] == '--bounded':
+        # deterministic bounded exploration of the merged queue: N random allocation trees of depth <= 3
+        rng = random.Random(20240601 + int(os.environ.get('VERIF_SEED', '0')))
+        for k in range(int(argv[1])):
+            case = rand_tree_case(rng)
+            errs = run_tree(case)
+            if errs:
+                case['why'] = errs[:3]
+                print('FAILING-INPUT ' + json.dumps(case))
+                return 0
+        print('explored %s trees, none fails' % argv[1])
+        return 0
     if argv[0] == '--input':
         case = json.loads(argv[1])
-        errs = run(case)
+        errs = run_tree(case) if 'tree' in case else run(case)
         print('input:', json.dumps(case))
         print('result:', errs or 'agrees with the property')
         return 1 if errs else 0
@@ -83,8 +192,12 @@ def main(argv):
     n = 0
     while time.time() - t0 < float(os.environ.get('VERIF_REPLAY_BUDGET', '30')):
         n += 1
-        case = rand_case(rng)
-        errs = run(case)
+        if n % 2:
+            case = rand_case(rng)
+            errs = run(case)
+        else:
+            case = rand_tree_case(rng)
+            errs = run_tree(case)
         if errs:
             case['why'] = errs[:3]
             print('FAILING-INPUT ' + json.dumps(case))
